@@ -73,6 +73,31 @@ def span_origin_class():
     return _SPAN_CLS[0]
 
 
+_TOK_CLS: list = []
+
+
+def tok_position_class():
+    """A user's own Position subclass that defines equality of its own and is therefore not hashable."""
+    if not _TOK_CLS:
+        from dataclasses import dataclass
+
+        from pyoak.origin import Position
+
+        @dataclass(frozen=True, eq=False)
+        class TokPos(Position):
+            tok: int = 0
+
+            @property
+            def fqn(self) -> str:
+                return f"tok{self.tok}"
+
+            def __eq__(self, other):
+                return isinstance(other, TokPos) and other.tok == self.tok
+
+        _TOK_CLS.append(TokPos)
+    return _TOK_CLS[0]
+
+
 def _source_file(i: int):
     """The file behind a file source: created once per machine under the temp dir (atomic rename), same content every time."""
     import os
@@ -189,6 +214,10 @@ def build_origin(spec: tuple, src=None) -> Any:
         _, s_, a, b = spec
         t = TEXTS[s_]
         return span_origin_class()(source(s_), CodeRange(CodePoint(*point_for(t, a)), CodePoint(*point_for(t, b))))
+    if k == "tok":
+        from pyoak.origin import Origin
+
+        return Origin(source(spec[1]), tok_position_class()(spec[2]))
     if k == "nsnp":
         from pyoak.origin import NO_POSITION, NO_SOURCE, Origin
 
@@ -221,6 +250,8 @@ def gen_origin(rng, allow_multi: bool = True, p_no: float = 0.4) -> tuple:
         # the NoSource singleton with a real position; a real origin object made of both placeholders; a plain origin whose
         # position is a set of positions (the same members in one order or the other: two different origins)
         s_ = rng.randrange(N_SOURCES)
+        if rng.random() < 0.2:
+            return ("tok", s_, rng.randrange(3))  # a position of a user's own class that is not hashable
         if rng.random() < 0.4:
             # an origin of a user's own (measurable) class: empty spans are falsy
             a_ = rng.randrange(0, 4)
@@ -236,7 +267,7 @@ def gen_origin(rng, allow_multi: bool = True, p_no: float = 0.4) -> tuple:
     members = []
     while len(members) < k:
         m = gen_origin(rng, allow_multi=False, p_no=0.0)
-        if m[0] in ("nsnp", "posset", "span"):
+        if m[0] in ("nsnp", "posset", "span", "tok"):
             continue  # (kept out of multi origins: members are ordinary single-position origins)
         members.append(m)
     if rng.random() < 0.4:
@@ -268,6 +299,8 @@ def canon_spec(spec: tuple) -> tuple:
         _, s_, a, b = spec
         t = TEXTS[s_]
         return ("SpanOrigin", _canon_src_idx(s_), ("CodeRange", point_for(t, a), point_for(t, b)))
+    if k == "tok":
+        return ("Origin", _canon_src_idx(spec[1]), ("TokPos", spec[2]))
     if k == "nsnp":
         return ("Origin", ("NoSource",), ("NoPosition",))
     if k == "posset":
@@ -319,6 +352,8 @@ def canon_position(p: Any) -> tuple:
         return ("PositionSet", tuple(canon_position(x) for x in p.positions))
     if tn == "EntireSourcePosition":
         return ("EntireSourcePosition",)
+    if tn == "TokPos":
+        return ("TokPos", p.tok)
     return (tn, repr(p))
 
 
